@@ -88,11 +88,14 @@ finally:
 out = os.path.join(root, "seeded", a.name)
 if meta.get("confirmed") or a.keep_unconfirmed:
     os.makedirs(out, exist_ok=True)
-    shutil.copy(patch, os.path.join(out, "patch.diff"))
-    shutil.copy(demo, os.path.join(out, "demo.py"))
+    same = os.path.abspath(out) == sd
+    if not same:
+        shutil.copy(patch, os.path.join(out, "patch.diff"))
+        shutil.copy(demo, os.path.join(out, "demo.py"))
     notes = os.path.join(sd, "notes.md")
     if os.path.exists(notes):
-        shutil.copy(notes, os.path.join(out, "notes.md"))
+        if not same:
+            shutil.copy(notes, os.path.join(out, "notes.md"))
         meta["needs_to_manifest"] = open(notes).read()[:1500]
     json.dump(meta, open(os.path.join(out, "meta.json"), "w"), indent=1)
 print(json.dumps({k: meta.get(k) for k in ("name", "confirmed", "baseline_ok", "demo_exit_clean",
